@@ -466,10 +466,19 @@ func runHistory(in *HistInput) (obs *HistObs) {
 			Active: activeIdx(), QTick: m.QueueTick(), NTx: len(obs.Txs), Err: errCode()})
 	}
 	// every queue tick handed to a handler must be resolved once the machine is idle
+	// (a check mutation or AddErr issued by a handler is prepended without a tick
+	// and answers with the bare constant Queued = 2, which is not a tick)
 	if !obs.Crashed && !obs.Hung {
-		for _, h := range hlog {
-			for _, r := range h.Results {
-				if r >= 2 {
+		for hi, h := range hlog {
+			for ri, r := range h.Results {
+				tickless := false
+				if hi < len(in.Actions) && ri < len(in.Actions[hi].Calls) {
+					switch in.Actions[hi].Calls[ri].Kind {
+					case "canadd", "canremove", "adderr":
+						tickless = true
+					}
+				}
+				if r >= 2 && !tickless {
 					select {
 					case <-m.WhenQueue(am.Result(r)):
 					default:
